@@ -67,6 +67,23 @@ def applyTraceRow (buf : List α) (r : Win) (trace : List (Nat × Nat)) : Res (L
     let pb ← r.getIdx ij.2
     pure (gather b (swapPosMap pa pb))) buf
 
+/-- The side sort as the trait method uses it: `sort_data.sort_by(|i,j| compare(i.1, j.1))` or `sort_unstable_by(..)` on the side
+    table of `(index, &key)` pairs (src/sort.rs:88, 121, 182, 201).  It is the only place where caller code (the comparator, or
+    the key function wrapped into it) runs: a panic there unwinds out of the sort (`.error .panic`); otherwise the sort returns the
+    permutation (original indices in sorted order).  `List α` = the keys in their original order. -/
+abbrev SideSort (α : Type) := List α → Res (List Nat)
+
+/-- `sort_by` with a comparator that does not panic: *the* stable sort -/
+def sideStable (le : α → α → Bool) : SideSort α := fun keys => pure (stablePerm le keys)
+
+/-- `sort_unstable_by` with a comparator that does not panic: *some* permutation `p` (a model input, constrained by std's
+    contract: a permutation that orders the keys) -/
+def sideGiven (p : List Nat) : SideSort α := fun _ => pure p
+
+/-- `collect::<Box<[(usize, &T)]>>()` of `n` pairs (16 bytes each, whatever `T` is): "capacity overflow" panic beyond
+    `sideLimit = isize::MAX / 16`.  (Allocation failure below that aborts: outside the model.) -/
+def sideAllocOk (sideLimit n : Nat) : Bool := n ≤ sideLimit
+
 /-- body of `sort_by_row` / `sort_unstable_by_row` after the side sort produced permutation `p`
     (src/sort.rs:92-108, 125-141) -/
 def Acc.applyColPerm (a : Acc) (buf : List α) (p : List Nat) : Res (List α) := do
@@ -74,20 +91,41 @@ def Acc.applyColPerm (a : Acc) (buf : List α) (p : List Nat) : Res (List α) :=
   let rows ← a.rows.collect (a.rows.v.len + 2)
   rows.foldlM (fun b r => applyTraceRow b r trace) buf
 
-/-- `sort_by_row` src/sort.rs:80-109.  `indexRow` = the implementor's `Index<usize>`. -/
-def Acc.sortByRow (a : Acc) (indexRow : Nat → Res Win) (buf : List α) (le : α → α → Bool) (row : Nat) :
+/-- `sort_by_row` src/sort.rs:80-109 and `sort_unstable_by_row` 113-142 (identical up to the side sort called).
+    `indexRow` = the implementor's `Index<usize>`.  Nothing is written to the array before the side sort has returned. -/
+def Acc.sortRowWith (a : Acc) (indexRow : Nat → Res Win) (buf : List α) (sideLimit : Nat) (side : SideSort α) (row : Nat) :
     Res (List α) := do
   if ¬ row < a.numRows then throw .panic
   let w ← indexRow row
-  let p := stablePerm le (readWin buf w)
+  let keys := readWin buf w
+  if !sideAllocOk sideLimit keys.length then throw .panic
+  let p ← side keys
   a.applyColPerm buf p
 
-/-- `sort_unstable_by_row` src/sort.rs:113-142 with the side sort's result `p` supplied -/
-def Acc.sortUnstableByRow (a : Acc) (indexRow : Nat → Res Win) (buf : List α) (p : List Nat) (row : Nat) :
-    Res (List α) := do
-  if ¬ row < a.numRows then throw .panic
-  let _ ← indexRow row
-  a.applyColPerm buf p
+/-- `sort_by_row(row, compare)` src/sort.rs:80-109 -/
+def Acc.sortByRow (a : Acc) (indexRow : Nat → Res Win) (buf : List α) (sideLimit : Nat) (le : α → α → Bool) (row : Nat) :
+    Res (List α) := a.sortRowWith indexRow buf sideLimit (sideStable le) row
+
+/-- `sort_unstable_by_row(row, compare)` src/sort.rs:113-142 with the side sort's result `p` supplied -/
+def Acc.sortUnstableByRow (a : Acc) (indexRow : Nat → Res Win) (buf : List α) (sideLimit : Nat) (p : List Nat) (row : Nat) :
+    Res (List α) := a.sortRowWith indexRow buf sideLimit (sideGiven p) row
+
+/-- `sort_by_row_key(row, f)` src/sort.rs:147-153: `self.sort_by_row(row, |a, b| f(a).cmp(&f(b)))`; `leK` = `B: Ord` -/
+def Acc.sortByRowKey {κ : Type} (a : Acc) (indexRow : Nat → Res Win) (buf : List α) (sideLimit : Nat) (key : α → κ)
+    (leK : κ → κ → Bool) (row : Nat) : Res (List α) :=
+  a.sortByRow indexRow buf sideLimit (fun x y => leK (key x) (key y)) row
+
+/-- `sort_unstable_by_row_key(row, f)` src/sort.rs:158-164 -/
+def Acc.sortUnstableByRowKey (a : Acc) (indexRow : Nat → Res Win) (buf : List α) (sideLimit : Nat) (p : List Nat) (row : Nat) :
+    Res (List α) := a.sortUnstableByRow indexRow buf sideLimit p row
+
+/-- `sort_row_ord(row)` src/sort.rs:68-70: `self.sort_by_row(row, T::cmp)`; `leOrd` = `T: Ord` -/
+def Acc.sortRowOrd (a : Acc) (indexRow : Nat → Res Win) (buf : List α) (sideLimit : Nat) (leOrd : α → α → Bool) (row : Nat) :
+    Res (List α) := a.sortByRow indexRow buf sideLimit leOrd row
+
+/-- `sort_unstable_row_ord(row)` src/sort.rs:74-76 -/
+def Acc.sortUnstableRowOrd (a : Acc) (indexRow : Nat → Res Win) (buf : List α) (sideLimit : Nat) (p : List Nat) (row : Nat) :
+    Res (List α) := a.sortUnstableByRow indexRow buf sideLimit p row
 
 /-- body of `sort_by_col` / `sort_unstable_by_col` after the side sort (src/sort.rs:184-190, 204-210);
     `swapRows` = the implementor's `swap_rows` (overridden by `TooDee` and `TooDeeViewMut`) -/
@@ -95,20 +133,41 @@ def applyRowPerm (swapRows : List α → Nat → Nat → Res (List α)) (buf : L
   let trace ← buildSwapTrace p
   trace.foldlM (fun b ij => swapRows b ij.1 ij.2) buf
 
-/-- `sort_by_col` src/sort.rs:174-191.  `col` = the implementor's `col()`. -/
-def Acc.sortByCol (a : Acc) (col : Nat → Res Col) (swapRows : List α → Nat → Nat → Res (List α))
-    (buf : List α) (le : α → α → Bool) (c : Nat) : Res (List α) := do
+/-- `sort_by_col` src/sort.rs:174-191 and `sort_unstable_by_col` 195-211 (identical up to the side sort called).
+    `col` = the implementor's `col()`. -/
+def Acc.sortColWith (a : Acc) (col : Nat → Res Col) (swapRows : List α → Nat → Nat → Res (List α))
+    (buf : List α) (sideLimit : Nat) (side : SideSort α) (c : Nat) : Res (List α) := do
   if ¬ c < a.numCols then throw .panic
   let it ← col c
   let ps ← it.collect (it.v.len + 2)
   let keys := ps.filterMap fun p => buf[p]?
-  applyRowPerm swapRows buf (stablePerm le keys)
-
-/-- `sort_unstable_by_col` src/sort.rs:195-211 with the side sort's result supplied -/
-def Acc.sortUnstableByCol (a : Acc) (col : Nat → Res Col) (swapRows : List α → Nat → Nat → Res (List α))
-    (buf : List α) (p : List Nat) (c : Nat) : Res (List α) := do
-  if ¬ c < a.numCols then throw .panic
-  let _ ← col c
+  if !sideAllocOk sideLimit keys.length then throw .panic
+  let p ← side keys
   applyRowPerm swapRows buf p
+
+/-- `sort_by_col(col, compare)` src/sort.rs:174-191 -/
+def Acc.sortByCol (a : Acc) (col : Nat → Res Col) (swapRows : List α → Nat → Nat → Res (List α))
+    (buf : List α) (sideLimit : Nat) (le : α → α → Bool) (c : Nat) : Res (List α) :=
+  a.sortColWith col swapRows buf sideLimit (sideStable le) c
+
+/-- `sort_unstable_by_col(col, compare)` src/sort.rs:195-211 with the side sort's result supplied -/
+def Acc.sortUnstableByCol (a : Acc) (col : Nat → Res Col) (swapRows : List α → Nat → Nat → Res (List α))
+    (buf : List α) (sideLimit : Nat) (p : List Nat) (c : Nat) : Res (List α) :=
+  a.sortColWith col swapRows buf sideLimit (sideGiven p) c
+
+/-- `sort_by_col_key(col, f)` src/sort.rs:216-222 (after `fix:` 092e8d9 it delegates to `sort_by_col`) -/
+def Acc.sortByColKey {κ : Type} (a : Acc) (col : Nat → Res Col) (swapRows : List α → Nat → Nat → Res (List α))
+    (buf : List α) (sideLimit : Nat) (key : α → κ) (leK : κ → κ → Bool) (c : Nat) : Res (List α) :=
+  a.sortByCol col swapRows buf sideLimit (fun x y => leK (key x) (key y)) c
+
+/-- `sort_unstable_by_col_key(col, f)` src/sort.rs:227-233 -/
+def Acc.sortUnstableByColKey (a : Acc) (col : Nat → Res Col) (swapRows : List α → Nat → Nat → Res (List α))
+    (buf : List α) (sideLimit : Nat) (p : List Nat) (c : Nat) : Res (List α) :=
+  a.sortUnstableByCol col swapRows buf sideLimit p c
+
+/-- `sort_col_ord(col)` src/sort.rs:168-170 -/
+def Acc.sortColOrd (a : Acc) (col : Nat → Res Col) (swapRows : List α → Nat → Nat → Res (List α))
+    (buf : List α) (sideLimit : Nat) (leOrd : α → α → Bool) (c : Nat) : Res (List α) :=
+  a.sortByCol col swapRows buf sideLimit leOrd c
 
 end Toodee
